@@ -1,5 +1,11 @@
 //! Engine `comb`: the finite domain of C15 — every combinator × input case × closure behaviour,
-//! with counting closures.  Case line: `comb k=<combinator> in=<ft|ok|err> b=<ok|err|ft|->`.
+//! with counting closures.  Case line: `comb k=<combinator> in=<ft|ok|err> b=<ok|err|ft|-> [t=zst]`.
+//! `t=zst`: the same table instantiated at the other end of the type axis — zero-sized payload and error
+//! (`Parsed<(), ()>`) and zero-sized (non-capturing) closures that count through a thread-local: the only
+//! thing a generic combinator can make its behaviour depend on besides the case is the *type* (its size,
+//! alignment, drop glue), so the table is enumerated for a word-sized and for a zero-sized instantiation.
+//! Zero-sized values carry no data: the observation is the case (`P:ok` / `P:err` / `P:ft` / `R:ok` / `R:err`)
+//! and the call count.
 use crate::common::*;
 use flussab::{Parsed, Parsed::*, ResultExt};
 use std::cell::Cell;
@@ -59,14 +65,129 @@ pub const COMBINATORS: &[(&str, &[&str], &[&str])] = &[
 
 pub fn all_cases() -> Vec<String> {
     let mut v = vec![];
-    for (k, ins, bs) in COMBINATORS {
-        for i in *ins {
-            for b in *bs {
-                v.push(format!("comb k={} in={} b={}", k, i, b));
+    for t in ["", " t=zst"] {
+        for (k, ins, bs) in COMBINATORS {
+            for i in *ins {
+                for b in *bs {
+                    v.push(format!("comb k={} in={} b={}{}", k, i, b, t));
+                }
             }
         }
     }
     v
+}
+
+// ---- the zero-sized instantiation ----
+thread_local! {
+    static ZN: Cell<u32> = const { Cell::new(0) };
+    static ZB: Cell<u8> = const { Cell::new(0) };
+}
+
+type Z = Parsed<(), ()>;
+
+fn zin(s: &str) -> Z {
+    match s {
+        "ft" => Fallthrough,
+        "ok" => Res(Ok(())),
+        "err" => Res(Err(())),
+        _ => panic!("bad input"),
+    }
+}
+
+fn zrin(s: &str) -> Result<(), ()> {
+    match s {
+        "ok" => Ok(()),
+        "err" => Err(()),
+        _ => panic!("bad input"),
+    }
+}
+
+fn ztick() {
+    ZN.with(|n| n.set(n.get() + 1));
+}
+
+fn zb() -> u8 {
+    ZB.with(|b| b.get())
+}
+
+fn zres() -> Result<(), ()> {
+    if zb() == 0 { Ok(()) } else { Err(()) }
+}
+
+fn shape_p<T, E>(p: &Parsed<T, E>) -> String {
+    match p {
+        Fallthrough => "P:ft".into(),
+        Res(Ok(_)) => "P:ok".into(),
+        Res(Err(_)) => "P:err".into(),
+    }
+}
+
+fn shape_r<T, E>(r: &Result<T, E>) -> String {
+    match r {
+        Ok(_) => "R:ok".into(),
+        Err(_) => "R:err".into(),
+    }
+}
+
+/// Every closure below captures nothing (it reaches its counter and its behaviour through thread-locals), so
+/// it is a zero-sized value, as are the payload and the error.
+fn run_zst(k: &str, inp: &str, b: &str) -> (String, u32) {
+    ZN.with(|n| n.set(0));
+    ZB.with(|z| z.set(match b { "ok" | "-" => 0, "err" => 1, _ => 2 }));
+    fn and_do_action(_v: &mut ()) {
+        ztick();
+    }
+    let shown = match k {
+        "or_parse" => shape_p(&zin(inp).or_parse(|| {
+            ztick();
+            match zb() {
+                0 => Res(Ok(())),
+                1 => Res(Err(())),
+                _ => Fallthrough,
+            }
+        })),
+        "or_always_parse" => shape_r(&zin(inp).or_always_parse(|| {
+            ztick();
+            zres()
+        })),
+        "or_give_up" => shape_r(&zin(inp).or_give_up(|| {
+            ztick();
+        })),
+        "optional" => shape_r(&zin(inp).optional()),
+        "matches" => shape_r(&zin(inp).matches()),
+        "and_then" => shape_p(&zin(inp).and_then(|_v| {
+            ztick();
+            zres()
+        })),
+        "and_also" => shape_p(&zin(inp).and_also(|_v| {
+            ztick();
+            zres()
+        })),
+        // a `fn` item (also zero-sized), the other way callers pass a stateless action
+        "and_do" => shape_p(&zin(inp).and_do(and_do_action)),
+        "map" => shape_p(&zin(inp).map(|_v| {
+            ztick();
+        })),
+        "map_err" => shape_p(&zin(inp).map_err(|_e| {
+            ztick();
+        })),
+        "err_into" => shape_p(&zin(inp).err_into::<()>()),
+        "from_result" => shape_p(&Z::from(zrin(inp))),
+        "r_err_into" => shape_r(&ResultExt::err_into::<()>(zrin(inp))),
+        "r_and_also" => shape_r(&ResultExt::and_also(zrin(inp), |_v| {
+            ztick();
+            zres()
+        })),
+        "r_and_do" => shape_r(&ResultExt::and_do(zrin(inp), |_v| {
+            ztick();
+        })),
+        _ => "bad-combinator".into(),
+    };
+    (shown, ZN.with(|n| n.get()))
+}
+
+fn truncate2(s: &str) -> String {
+    s.split(':').take(2).collect::<Vec<_>>().join(":")
 }
 
 pub fn run_case(line: &str) -> (String, Vec<String>) {
@@ -74,10 +195,13 @@ pub fn run_case(line: &str) -> (String, Vec<String>) {
     let k = f.get("k");
     let inp = f.get("in");
     let b = f.get("b");
+    let zst = f.opt("t") == Some("zst");
     let n = Cell::new(0u32);
     let tick = || n.set(n.get() + 1);
     let mut fails = vec![];
+    let zrun = if zst { Some(run_zst(k, inp, b)) } else { None };
     let shown = match k {
+        _ if zst => zrun.as_ref().unwrap().0.clone(),
         "or_parse" => show_p(&input(inp).or_parse(|| {
             tick();
             match b {
@@ -132,7 +256,7 @@ pub fn run_case(line: &str) -> (String, Vec<String>) {
         _ => "bad-combinator".into(),
     };
     // ---- oracle: the property, stated directly (C15) ----
-    let calls = n.get();
+    let calls = if let Some((_, c)) = &zrun { *c } else { n.get() };
     let expect_calls = match k {
         "or_parse" | "or_always_parse" | "or_give_up" => (inp == "ft") as u32,
         "and_then" | "and_also" | "and_do" | "map" | "r_and_also" | "r_and_do" => (inp == "ok") as u32,
@@ -145,10 +269,10 @@ pub fn run_case(line: &str) -> (String, Vec<String>) {
     if (k == "and_then" || k == "and_also") && inp == "ok" && b == "err" && !shown.starts_with("P:err") {
         fails.push(format!("C15:{} did not commit the continuation's failure: {}", k, shown));
     }
-    if k == "optional" && inp == "ft" && shown != "R:ok:None" {
+    if !zst && k == "optional" && inp == "ft" && shown != "R:ok:None" {
         fails.push("C15:optional(fallthrough) is not Ok(None)".into());
     }
-    if k == "or_give_up" && inp == "ft" && shown != "R:err:99" {
+    if !zst && k == "or_give_up" && inp == "ft" && shown != "R:err:99" {
         fails.push("C15:or_give_up(fallthrough) is not the supplied error".into());
     }
     // the documented three-way semantics, spelled out case by case (independent of the Lean model)
@@ -184,7 +308,8 @@ pub fn run_case(line: &str) -> (String, Vec<String>) {
         ("r_and_also", "ok", "err") => Some("R:err:1205"),
         _ => None,
     };
-    match want {
+    let want = want.map(|w| if zst { truncate2(w) } else { w.to_string() });
+    match want.as_deref() {
         Some(w) if w != shown => fails.push(format!("C15:{} on input {} (closure {}) returned {}, documented result is {}", k, inp, b, shown, w)),
         None => fails.push(format!("C15:harness has no expected value for {} {} {}", k, inp, b)),
         _ => {}
